@@ -55,8 +55,13 @@ def _jsonable(o):
 
 def load_findings(prop):
     out = []
-    if os.path.exists(FINDINGS):
-        with open(FINDINGS) as f:
+    paths = [FINDINGS]
+    if os.environ.get("VERIF_EXTRA_FINDINGS"):   # development aid only; registered commands never set it
+        paths.append(os.environ["VERIF_EXTRA_FINDINGS"])
+    for path in paths:
+        if not os.path.exists(path):
+            continue
+        with open(path) as f:
             for line in f:
                 line = line.strip()
                 if not line or line.startswith("#"):
